@@ -668,6 +668,11 @@ func TestC08Big(t *testing.T) {
 	w := spec.WideSpec{N: 65536 + 8, Period: 2}
 	col.CaseHash(stats.HashJSON(w), true, []string{"term-in-every-document-of-a-full-65536-block"}, func() any { return sampleOf(w) })
 	reportBig(t, col, "C08", "dictionary-big", w, runDictBig(w))
+	// a term with locations in 6 of every 7 of 76000 documents: posting details beyond 2 MiB, a
+	// serialized bitmap beyond 16 KiB (every length field of the postings header needs 3..4 bytes)
+	w2 := spec.WideSpec{N: 76000, Period: 3, Locs: true, Gap: 7}
+	col.CaseHash(stats.HashJSON(w2), true, []string{"postings-header-with-long-varints"}, func() any { return sampleOf(w2) })
+	reportBig(t, col, "C08", "dictionary-big", w2, runDictBig(w2))
 }
 
 func TestC08Fixed(t *testing.T) {
